@@ -2,7 +2,7 @@
 import solvercheck, framework
 PID = "C01"
 MODULE = "MysticVerif.Props.Solve"
-THEOREMS = ["MysticVerif.C01.de_member_inv", "MysticVerif.C01.de_best_inv", "MysticVerif.C01.de_best_le_members", "MysticVerif.C01.de2_step_eq_de1_step", "MysticVerif.C01.de_best_le_initial_guess", "MysticVerif.C01.nm_member_inv", "MysticVerif.C01.nm_inv_reachable", "MysticVerif.C01.nm_best_evaluated_of_fixed", "MysticVerif.C01.nm_best_le_members", "MysticVerif.C01.nm_best_not_evaluated_witness", "MysticVerif.C01.pw_best_inv", "MysticVerif.C01.pw_best_inv_gen0", "MysticVerif.C01.pw_best_le_initial_guess", "MysticVerif.SolveProps.solve_de_inv", "MysticVerif.SolveProps.solve_de_best", "MysticVerif.SolveProps.solve_state_is_open_loop", "MysticVerif.C01.ensemble_best_inherits", "MysticVerif.C01.ensemble_of_de_best", "MysticVerif.SolveProps.solve_nm_inv", "MysticVerif.SolveProps.solve_nm_members", "MysticVerif.SolveProps.solve_pw_inv", "MysticVerif.SolveProps.solve_pw_best", "MysticVerif.Reconfig.nm_redecorate_keeps_energies", "MysticVerif.Reconfig.nm_redecorate_head", "MysticVerif.Reconfig.nm_redecoration_breaks_member_energy_witness"]
+THEOREMS = ["MysticVerif.C01.de_member_inv", "MysticVerif.C01.de_best_inv", "MysticVerif.C01.de_best_le_members", "MysticVerif.C01.de2_step_eq_de1_step", "MysticVerif.C01.de_best_le_initial_guess", "MysticVerif.C01.nm_member_inv", "MysticVerif.C01.nm_inv_reachable", "MysticVerif.C01.nm_best_evaluated_of_fixed", "MysticVerif.C01.nm_best_le_members", "MysticVerif.C01.nm_best_not_evaluated_witness", "MysticVerif.C01.pw_best_inv", "MysticVerif.C01.pw_best_inv_gen0", "MysticVerif.C01.pw_best_le_initial_guess", "MysticVerif.SolveProps.solve_de_inv", "MysticVerif.SolveProps.solve_de_best", "MysticVerif.SolveProps.solve_state_is_open_loop", "MysticVerif.C01.ensemble_best_inherits", "MysticVerif.C01.ensemble_of_de_best", "MysticVerif.SolveProps.solve_nm_inv", "MysticVerif.SolveProps.solve_nm_members", "MysticVerif.SolveProps.solve_pw_inv", "MysticVerif.SolveProps.solve_pw_best", "MysticVerif.Reconfig.nm_redecorate_keeps_energies", "MysticVerif.Reconfig.nm_redecorate_head", "MysticVerif.Reconfig.nm_redecoration_breaks_member_energy_witness", "MysticVerif.Reconfig.reconfigured_best_origin", "MysticVerif.Reconfig.init_bestAny"]
 
 
 def run_shard(pid, seed, shard, ncases, tier, extra):
